@@ -133,6 +133,9 @@ class Tokenizer:
             return normalize(self.unicodesub(_repl, value))
 
         line = col = 1
+        # if comments are dropped the white space before and after a comment
+        # is reported as one S token only (like any other run of white space)
+        lastS = False
         # The current starting character. We just increase this instead of
         # splitting off the beginning of text to increase performance.
         pos = 0
@@ -163,6 +166,7 @@ class Tokenizer:
             c = text[pos]
             if c in ',:;{}>[]':  # + but in num!
                 yield ('CHAR', c, line, col)
+                lastS = False
                 col += 1
                 pos += 1
 
@@ -253,7 +257,9 @@ class Tokenizer:
                         if self._doComments or (
                             not self._doComments and name != 'COMMENT'
                         ):
-                            yield (name, value, line, col)
+                            if not (name == 'S' and lastS and not self._doComments):
+                                yield (name, value, line, col)
+                            lastS = name == 'S'
 
                         pos += len(found)
                         nls = found.count(self._linesep)
